@@ -741,3 +741,12 @@ Proof. intros H. exact (proj1 (guard_run_sorted raws 0 H)). Qed.
 (* what the guard lets through is the raw value itself *)
 Lemma guard_value last raw : fst (guard last raw) = None \/ fst (guard last raw) = Some raw.
 Proof. unfold guard. destruct (negb (last =? 0) && (last >=? raw)); [left | right]; reflexivity. Qed.
+
+(* a generator whose counters come through an adapter's guard issues increasing ids *)
+Lemma increasing_guarded_thm S h g raws :
+  premise S h = true -> Forall (fun r => r <> 0) raws ->
+  cur_leases g [] (run empty h) = somes (guard_run 0 raws) ->
+  StronglySorted Z.lt (cur_ids g [] (run empty h)).
+Proof.
+  intros HP Hnz Heq. apply (increasing_thm S h g HP). rewrite Heq. apply guard_monotone_thm. assumption.
+Qed.
